@@ -282,6 +282,23 @@ def strategyResp (c : Cfg) (r : Resp) : SResp :=
 
 def checkTraceId (c : Cfg) (tid : Nat) : Bool := decide (c.traceId = tid) || decide (tid = 0)
 
+/-- the `target_ttl` update of `complete_probe` -/
+def newTargetTtl (s : TS) (isTarget : Bool) (ttl : Nat) : Option Nat :=
+  if isTarget then
+    (match s.targetTtl with
+     | none => some ttl
+     | some t => if ttl < t then some ttl else some t)
+  else
+    (match s.targetTtl with
+     | some t => if ttl ≥ t then none else some t
+     | none => none)
+
+/-- the `max_received_ttl` update of `complete_probe` -/
+def newMaxRecv (s : TS) (ttl : Nat) : Option Nat :=
+  match s.maxRecvTtl with
+  | none => some ttl
+  | some m => some (max m ttl)
+
 /-- `TracerState::complete_probe` -/
 def completeProbe (s : TS) (r : SResp) : R TS := do
   let idx ← subU r.seq s.roundSeq
@@ -291,21 +308,9 @@ def completeProbe (s : TS) (r : SResp) : R TS := do
     if p.round = s.round then
       let cp : Complete := { probe := p, host := r.addr, received := r.received, kind := r.kind,
                              tos := r.tos, expCk := r.expCk, actCk := r.actCk, ext := r.ext }
-      let s ← setSlot s idx (.complete cp)
-      let ttl := p.ttl
-      let tt := if r.isTarget then
-          (match s.targetTtl with
-           | none => some ttl
-           | some t => if ttl < t then some ttl else some t)
-        else
-          (match s.targetTtl with
-           | some t => if ttl ≥ t then none else some t
-           | none => none)
-      let mr := match s.maxRecvTtl with
-        | none => some ttl
-        | some m => some (max m ttl)
-      .ok { s with targetTtl := tt, maxRecvTtl := mr, recvTime := some r.received,
-                   targetFound := s.targetFound || r.isTarget }
+      let s' ← setSlot s idx (.complete cp)
+      .ok { s' with targetTtl := newTargetTtl s r.isTarget p.ttl, maxRecvTtl := newMaxRecv s p.ttl,
+                    recvTime := some r.received, targetFound := s.targetFound || r.isTarget }
     else .ok s
   | some _ => .ok s
 
@@ -359,43 +364,53 @@ def tcpLoop (c : Cfg) (s : TS) (p : Probe) (log : List (Probe × SendOutcome)) :
       else .err .capacity
     | some e => .err e
 
-/-- `Strategy::send_request`; returns the new state and the log of `send_probe` calls -/
-def sendRequest (c : Cfg) (s : TS) (sends : List SendOutcome) :
-    R (TS × List (Probe × SendOutcome)) := do
+/-- the guard of `Strategy::send_request` (with the machine arithmetic it performs) -/
+def canSendR (c : Cfg) (s : TS) : R Bool := do
   let fm1 ← subU c.firstTtl 1
-  let canSend ← match s.targetTtl with
+  let can ← match s.targetTtl with
     | some t => (.ok (decide (s.ttl ≤ t)) : R Bool)
     | none => do
       let base := s.maxRecvTtl.getD fm1
       let d ← subU s.ttl base
       .ok (decide (d ≤ c.maxInflight))
-  if !s.targetFound && decide (s.ttl ≤ c.maxTtl) && canSend then
-    match c.proto with
-    | .icmp | .udp => do
+  .ok (!s.targetFound && decide (s.ttl ≤ c.maxTtl) && can)
+
+/-- the sending branch of `Strategy::send_request` -/
+def doSends (c : Cfg) (s : TS) (sends : List SendOutcome) : R (TS × List (Probe × SendOutcome)) :=
+  match c.proto with
+  | .icmp | .udp => do
+    let (s, p) ← nextProbe c s s.now
+    let (o, _) := headOutcome sends
+    let (s, e) ← doSend s o
+    match e with
+    | none => .ok (s, [(p, o)])
+    | some e => .err e
+  | .tcp => do
+    let cap ← roundHasCapacity s
+    if cap then do
       let (s, p) ← nextProbe c s s.now
-      let (o, _) := headOutcome sends
-      let (s, e) ← doSend s o
-      match e with
-      | none => .ok (s, [(p, o)])
-      | some e => .err e
-    | .tcp => do
-      let cap ← roundHasCapacity s
-      if cap then do
-        let (s, p) ← nextProbe c s s.now
-        tcpLoop c s p [] sends
-      else .err .capacity
-  else .ok (s, [])
+      tcpLoop c s p [] sends
+    else .err .capacity
+
+/-- `Strategy::send_request`; returns the new state and the log of `send_probe` calls -/
+def sendRequest (c : Cfg) (s : TS) (sends : List SendOutcome) :
+    R (TS × List (Probe × SendOutcome)) := do
+  let g ← canSendR c s
+  if g then doSends c s sends else .ok (s, [])
+
+/-- the wait inside `recv_probe` advances the virtual clock -/
+def tick (s : TS) (dt : Nat) : TS := { s with now := s.now + dt }
 
 /-- `Strategy::recv_response`; the wait inside `recv_probe` advances the clock by `dt` -/
 def recvResponse (c : Cfg) (s : TS) (dt : Nat) : RecvOutcome → R TS
   | .fatal => .err .io
-  | .none => .ok { s with now := s.now + dt }
+  | .none => .ok (tick s dt)
   | .resp r =>
-    let s := { s with now := s.now + dt }
     if validate c r then
-      let sr := strategyResp c r
-      if checkTraceId c sr.traceId && inRound s sr.seq then completeProbe s sr else .ok s
-    else .ok s
+      if checkTraceId c (strategyResp c r).traceId && inRound (tick s dt) (strategyResp c r).seq then
+        completeProbe (tick s dt) (strategyResp c r)
+      else .ok (tick s dt)
+    else .ok (tick s dt)
 
 def exceeds (start : Option Nat) (endT dur : Nat) : Bool :=
   match start with
